@@ -271,6 +271,20 @@ func search(e *Engine, seed uint64, from, count, stride int, budget float64, var
 		st.Max("max_run_wall_ms", time.Since(t0).Milliseconds())
 		if time.Since(t0) > 2*time.Second {
 			st.Add("runs_slower_than_2s", 1)
+			if f := os.Getenv("VERIFSIM_SLOWLOG"); f != "" {
+				// debugging aid: which runs were slow
+				if fh, err := os.OpenFile(f, os.O_APPEND|os.O_CREATE|os.O_WRONLY, 0o644); err == nil {
+					first := ""
+					if len(c.Trace) > 0 {
+						first = c.Trace[0]
+						if len(first) > 300 {
+							first = first[:300]
+						}
+					}
+					fmt.Fprintf(fh, "run %d: %d ms: %s\n", run, time.Since(t0).Milliseconds(), first)
+					fh.Close()
+				}
+			}
 		}
 		res.Runs++
 		if c.EngineError != "" {
